@@ -14,12 +14,13 @@ fn agg(rng: &mut Rng) -> String {
         0 => "COUNT(*)".to_owned(),
         1 => format!("COUNT({})", rng.pick(&["v", "w", "k", "r", "iv", "ts", "b"])),
         2 | 3 => format!("COUNT(DISTINCT {})", rng.pick(&["v", "w", "k", "iv", "ts", "s", "v", "b"])),
-        4 | 5 => format!("SUM({})", rng.pick(&["v", "w", "r", "v * 2", "v + w", "iv", "iv"])),
-        6 => format!("MIN({})", rng.pick(&["v", "w", "k", "s", "r", "iv", "ts", "b"])),
-        7 => format!("MAX({})", rng.pick(&["v", "w", "k", "s", "r", "iv", "ts", "b"])),
-        8 => format!("AVG({})", rng.pick(&["v", "w", "r", "iv"])),
+        // `t2 - ts`: sub-second intervals of either sign (column iv: whole seconds of either sign), see c04::C04_DEF
+        4 | 5 => format!("SUM({})", rng.pick(&["v", "w", "r", "v * 2", "v + w", "iv", "iv", "t2 - ts"])),
+        6 => format!("MIN({})", rng.pick(&["v", "w", "k", "s", "r", "iv", "ts", "b", "t2 - ts", "t2"])),
+        7 => format!("MAX({})", rng.pick(&["v", "w", "k", "s", "r", "iv", "ts", "b", "t2 - ts", "t2"])),
+        8 => format!("AVG({})", rng.pick(&["v", "w", "r", "iv", "t2 - ts", "t2 - ts"])),
         9 => format!("{}({})", rng.pick(&["STDDEV", "VARIANCE"]), rng.pick(&["v", "w", "r"])),
-        10 => format!("PERCENTILE({}, {})", rng.pick(&["v", "w", "k", "iv", "ts", "s"]), rng.pick(&["0.0", "0.5", "0.9", "1.0"])),
+        10 => format!("PERCENTILE({}, {})", rng.pick(&["v", "w", "k", "iv", "ts", "s", "t2 - ts"]), rng.pick(&["0.0", "0.5", "0.9", "1.0"])),
         11 => format!("BOOL_AND({})", rng.pick(&["v > 0", "w = 1", "k = 'a'", "b"])),
         12 => format!("BOOL_OR({})", rng.pick(&["v > 30", "w = 1", "k = 'a'", "b"])),
         _ => "COUNT(*) + 1".to_owned(),
